@@ -7,7 +7,10 @@
         (same abstract value) and vs the extracted hash model
    (K-outer B) operation histories on (srfi 69) tables (eq?/eqv?/equal?/string=?/user procedures): after EVERY operation
         size, bucket count, hash-table->alist in its exact order and the lookup of every key vs the extracted table model
-        (exact layout) and vs the extracted association-list map (the spec); (srfi 125) histories vs the spec map."""
+        (exact layout) and vs the extracted association-list map (the spec); (srfi 125) histories vs the spec map.
+   round 3: strings carved from ONE byte store (pairs + table key universes); results of arithmetic with bignum / ratio / flonum / complex
+        operands against the literal (eqv?, equal?, hash, fixnum?, memv/assv/case, table keys); histories through every constructor form that
+        chooses a hash function, every key object freshly computed; (G) gen/c15_opthash.py: the default-hash choice of opt-hash / make-hash-table."""
 import os, struct, subprocess, json
 from fractions import Fraction
 from vlib import build as B, scm
@@ -726,6 +729,10 @@ def run(ctx):
         "graphs: rooted graphs with sharing and cycles (templates + random) built node by node in Scheme from the description the extracted model gets: a bisimilar "
         "variant and every single-position mutant (car/cdr, each vector slot, length, leaf bytes, one-sided sharing), DAGs with 2^16 unfolding, 20000-element lists; "
         "(scheme base) equal? both orders + equal?/bounded vs bisim_dec (SPEC) and vs the regenerated equiv?.  "
+        "round 3: string pairs carved from one bytevector at different offsets (equal / different contents, half colliding in one of the 23 buckets); "
+        "~35 computation routes per target 0, +-1, small, +-2^62 boundary whose last operation has a bignum/ratio/complex/flonum operand, result vs literal under 19 predicates; "
+        "histories over 244 constructor forms of (srfi 69)/(srfi 125) (default hash by equivalence, explicit hash, comparators; alist->, hash-table, unfold, copy, empty-copy) "
+        "with three rotating computation routes per key so that no key object is passed twice, vs the association-list SPEC.  "
         "non-trivial = pair with a heap object / history with >= 1 regrow / graph case answered by equiv.scm (bounded pass gave up); distinct by canonical input")
     # (G)
     d = ctx.build("default")
@@ -763,7 +770,7 @@ def run(ctx):
     t2 = time.time()
     histories(ctx, d, exe, C, (100, 8) if not T else (1100, 60))
     t3 = time.time()
-    ctor_histories(ctx, d, exe, C, *((1, 0.6) if not T else (6, 1.0)))
+    ctor_histories(ctx, d, exe, C, *((2, 1.0) if not T else (8, 1.0)))
     ctx.note("wall: constructor histories %.0fs" % (time.time() - t3))
     ctx.note("wall: inner %.0fs, outer pairs+cycles %.0fs, histories %.0fs" % (t1 - t0, t2 - t1, time.time() - t2))
     for e in shape_errs:
@@ -779,7 +786,9 @@ def run(ctx):
             ctx.note("coqchk: Properties_C15 closure re-checked, axioms <none>")
         else:
             ctx.broken("coqchk", "coqchk does not accept the compiled closure of Properties_C15: %s" % (r.stdout + r.stderr)[-800:])
-    ctx.assume("the bounded C pass on data with sharing / beyond its limits is not modelled: the theorems about (scheme base) equal? on graphs assume its definite answers are sound (bounded_sound), which is checked on every generated graph case; hash of cyclic data is only tested")
+    ctx.assume("the bounded C pass on data with SHARING is not modelled: the theorems about (scheme base) equal? on graphs assume its definite answers are sound (bounded_sound), which is checked on every generated graph case and PROVED for unshared data of any size/depth (equal_bound_sound, slow_path_bounded_pass_sound); hash of cyclic data is only tested")
+    ctx.assume("the core equal? primitive of (chibi) answers #t at its depth cut-off (bound 10^8 > depth 10000) for data differing below 10000 depth-consuming levels (core_equal_depth_cutoff_refuted, F-C15-4): member/assoc/default tables inherit it; the check exercises the primitive only inside its limits")
+    ctx.trust("gen/c15_opthash.py: the callers of opt-hash in lib/srfi/125/hash.scm are pinned by exact text; string-ci=? / the hash functions of the non-basic (srfi 128) comparators are only tested, not modelled")
     ctx.trust("gen/c15_equiv.py: get-equivs, merge! and the result line of lib/chibi/equiv.scm are modelled by hand behind an exact-text check; the inner equiv? is translated")
     ctx.assume("hash-by-identity of heap objects (addresses) is not modelled: eq?-tables with heap keys are compared with the spec map only, not with the table model's layout")
     ctx.assume("the comparison/hash procedures given to make-hash-table do not mutate the table and are total; a user hash function is only required to respect the equivalence")
@@ -1564,7 +1573,8 @@ def arith_results(ctx, d, n_draws):
             continue
         ctx.cov["traces_validated_against_impl"] += 1
         if o[9] != "1":
-            ctx.broken("generator:arith", "the route %s does not compute %s numerically (= is false): generator or arithmetic (C04) problem" % (e, lit))
+            # numerically another number than the literal: "agree with numeric identity however a value was computed" fails outright (F-C15-3 was found here)
+            ctx.violation("computed-number:%s:wrong-value" % op, input=e, literal=lit, expected="a number = to %s" % lit, observed="(= r %s) is #f; answers %s" % (lit, o), replay=rp)
             continue
         bad = [NUM_PREDS[i] for i, c in enumerate(o) if c != "1"]
         if bad:
